@@ -298,6 +298,7 @@ func c08(p *model.Prog, r *report.Result) {
 	c08r7(p, r, runLoop)
 	c08r89(p, r, calc, runLoop)
 	c08r1011(p, r, runLoop)
+	c08r1314(p, r, runLoop)
 }
 
 // c08r56 adds the basic-header byte rule (R5) and the reader's absolute/delta typestate (R6).
